@@ -4,6 +4,7 @@ import (
 	"go/ast"
 	"go/token"
 	"go/types"
+	"strings"
 
 	"golang.org/x/tools/go/ssa"
 
@@ -48,7 +49,7 @@ func c46(r *core.Run) {
 	r.Explanation = "Decided clauses for stdlib/rlp (ReadSize, DecodeString, DecodeList): (R1) every addition whose operand is a length decoded from the input (third result of ReadSize, up to 2^63-1) is preceded, on every path, by the subtractive bound test " +
 		"`size > len(inp) - start` with a returning true edge, so the sum cannot overflow and is within the input; every index inp[i] is preceded by `i >= len(inp)` → return, or by that subtractive test together with size == 1; " +
 		"every slice inp[a:b] has b bounded by `b > len(inp)` → return or b = a' + size under the subtractive test; (R2) the stdlib wrappers convert every decoder error into a user error and reject trailing bytes on every returning path."
-	r.NotDecided = "that exactly the canonical encodings are accepted; the local 8-byte length buffer arithmetic in ReadSize (bounded by the first-byte ranges); lower slice bounds."
+	r.NotDecided = "that exactly the canonical encodings are accepted (R3 decides only that the three rejections of non-canonical lengths of the reviewed tree are still made); the local 8-byte length buffer arithmetic in ReadSize (bounded by the first-byte ranges); lower slice bounds."
 	w := r.W
 	readSize := funcOf(mod+"/stdlib/rlp", "ReadSize")
 	for _, name := range []string{"ReadSize", "DecodeString", "DecodeList"} {
@@ -249,6 +250,7 @@ func c46(r *core.Run) {
 		}
 	}
 	r.Floor("R2.wrappers", 4)
+	c46Canonical(r)
 }
 
 func nameOf(v ssa.Value) string {
@@ -301,4 +303,121 @@ func srcExpr(w *core.World, fn *ssa.Function, pos token.Pos, kind string) string
 		return true
 	})
 	return out
+}
+
+// c46Canonical: R3 — every rejection of a non-canonical length recorded for the reviewed tree is still made. Each
+// `return … ErrNonCanonicalInput` of stdlib/rlp is fingerprinted by the comparison that selects it (operator and operand classes:
+// a byte of a byte slice, a constant, a decoded length, another value); the pinned fingerprints (tables/c46_canonical.json) must
+// all be present. The three tests of the pinned tree are: a one-byte long-form length ≤ 55, a leading zero byte of a multi-byte
+// length, and a one-byte string payload ≤ 0x7f; replacing one of them by a weaker or different test accepts a non-canonical encoding.
+func c46Canonical(r *core.Run) {
+	const rule = "R3.canonical"
+	w := r.W
+	p := w.Pkg("stdlib/rlp")
+	if p == nil {
+		r.Undecided(rule, "stdlib/rlp", "package not loaded")
+		return
+	}
+	class := func(v ssa.Value) string {
+		for {
+			switch x := v.(type) {
+			case *ssa.Convert:
+				v = x.X
+				continue
+			case *ssa.ChangeType:
+				v = x.X
+				continue
+			}
+			break
+		}
+		switch x := v.(type) {
+		case *ssa.Const:
+			if x.Value != nil {
+				return "const " + x.Value.ExactString()
+			}
+			return "const"
+		case *ssa.UnOp:
+			if ia, ok := x.X.(*ssa.IndexAddr); ok && x.Op == token.MUL {
+				if sl, ok := ia.X.Type().Underlying().(*types.Slice); ok {
+					if b, ok := sl.Elem().Underlying().(*types.Basic); ok && b.Kind() == types.Uint8 {
+						return "input byte"
+					}
+				}
+			}
+		case *ssa.Call:
+			if o := core.Callee(x); o != nil && o.Pkg() != nil && o.Pkg().Path() == "encoding/binary" {
+				return "decoded multi-byte length"
+			}
+		case *ssa.Extract:
+			return "result #" + itoa(x.Index)
+		}
+		return "value"
+	}
+	flip := map[token.Token]token.Token{token.LSS: token.GTR, token.GTR: token.LSS, token.LEQ: token.GEQ, token.GEQ: token.LEQ, token.EQL: token.EQL, token.NEQ: token.NEQ}
+	negate := map[token.Token]token.Token{token.LSS: token.GEQ, token.GTR: token.LEQ, token.LEQ: token.GTR, token.GEQ: token.LSS, token.EQL: token.NEQ, token.NEQ: token.EQL}
+	got := map[string]int{}
+	for _, fn := range w.SrcFuncs() {
+		if fn.Pkg == nil || fn.Pkg.Pkg.Path() != mod+"/stdlib/rlp" {
+			continue
+		}
+		for _, ret := range core.Returns(fn) {
+			isNC := false
+			for _, res := range ret.Results {
+				if u, ok := core.Unwrap(res).(*ssa.UnOp); ok && u.Op == token.MUL {
+					if g, ok := u.X.(*ssa.Global); ok && g.Name() == "ErrNonCanonicalInput" {
+						isNC = true
+					}
+				}
+			}
+			if !isNC {
+				continue
+			}
+			b := ret.Block()
+			if len(b.Preds) != 1 {
+				got[core.SSAKey(fn)+": (joined paths)"]++
+				continue
+			}
+			pb := b.Preds[0]
+			iff, ok := pb.Instrs[len(pb.Instrs)-1].(*ssa.If)
+			if !ok {
+				got[core.SSAKey(fn)+": (unconditional)"]++
+				continue
+			}
+			viaTrue := pb.Succs[0] == b
+			cond := iff.Cond
+			for {
+				if u, ok := cond.(*ssa.UnOp); ok && u.Op == token.NOT {
+					cond, viaTrue = u.X, !viaTrue
+					continue
+				}
+				break
+			}
+			bo, ok := cond.(*ssa.BinOp)
+			if !ok {
+				got[core.SSAKey(fn)+": (non-comparison)"]++
+				continue
+			}
+			op, x, y := bo.Op, class(bo.X), class(bo.Y)
+			if !viaTrue {
+				op = negate[op]
+			}
+			if strings.HasPrefix(x, "const") && !strings.HasPrefix(y, "const") {
+				x, y, op = y, x, flip[op]
+			}
+			got["stdlib/rlp: "+x+" "+op.String()+" "+y]++
+		}
+	}
+	genCounts(r, "c46_canonical", got)
+	if genMode() {
+		return
+	}
+	var pinned map[string]int
+	if !r.Table("c46_canonical", &pinned) {
+		return
+	}
+	for _, k := range sortedKeys(pinned) {
+		r.Check(got[k] >= pinned[k], rule, k, 0, "this non-canonical form is rejected",
+			"the test that rejected this non-canonical form on the reviewed tree is gone (or was replaced by a different comparison): a non-canonical encoding is decoded instead of failing with a user error")
+	}
+	r.Floor(rule, 3)
 }
